@@ -513,7 +513,11 @@ where
     }
     matcher
         .find_iter_at(bytes, range.start, |m| {
-            if m.start() >= range.end {
+            // A match that reaches beyond the end of the range can't be one
+            // that the searcher found (its lines would be part of the range).
+            // It's an artifact of searching a buffer that has been cut short
+            // above, where e.g. `$` matches at the artificial end.
+            if m.start() >= range.end || m.end() > range.end {
                 return false;
             }
             matched(m)
@@ -557,7 +561,8 @@ where
     let mut last_match = range.start;
     matcher.captures_iter_at(bytes, range.start, caps, |caps| {
         let m = caps.get(0).unwrap();
-        if m.start() >= range.end {
+        // See find_iter_at_in_context for why the end is checked too.
+        if m.start() >= range.end || m.end() > range.end {
             return false;
         }
         dst.extend(&bytes[last_match..m.start()]);
